@@ -10,7 +10,8 @@ from typing import List, Optional
 from .model import Repo, AnchorMissing, FuncInfo, ModuleInfo, ClassInfo, stmt_key, norm
 
 VERIF = os.path.dirname(os.path.dirname(os.path.abspath(__file__)))
-EVIDENCE_DIR = os.path.join(VERIF, "evidence")
+# runs against scratch trees (seeded changes, neutral-edit campaign) write their evidence elsewhere
+EVIDENCE_DIR = os.environ.get("PDV_EVIDENCE_DIR") or os.path.join(VERIF, "evidence")
 KNOWN_FILE = os.path.join(VERIF, "known_findings.json")
 
 
